@@ -47,13 +47,34 @@ func checkC17(c *Ctx) {
 		R.Fatal("Run: no net.Listen* / tls.Listen call found")
 		return
 	}
+	listenFn := listen.Parent()
+	errPred := map[*ssa.Function]func(ssa.Value) bool{}
+	listenPoint := map[*ssa.Function]*ssa.Call{}
+	for _, f := range []*ssa.Function{listenFn, m.run} {
+		p, pt, why := c.listenErrIn(f, listen)
+		listenPoint[f] = pt
+		if p == nil {
+			R.Unknown("C17-guard", "(*Server).Run: listen error", c.pos(listen), "cannot relate the listen's error to "+fname(f)+": "+why)
+			return
+		}
+		errPred[f] = p
+	}
 	isListenErr := func(v ssa.Value) bool {
 		x, _, ok := an.NilCheck(v)
 		if !ok {
 			return false
 		}
-		ex, ok := an.Strip(x).(*ssa.Extract)
-		return ok && ex.Tuple == ssa.Value(listen) && ex.Index == 1
+		for _, p := range errPred {
+			if p(x) {
+				return true
+			}
+		}
+		return false
+	}
+	inRunOrListen := func(root *ssa.Function) bool { return root == m.run || root == listenFn }
+	afterListen := func(in ssa.Instruction) bool {
+		pt := listenPoint[in.Parent()]
+		return pt != nil && an.InstrDominates(pt, in)
 	}
 	listenOK := func(b *ssa.BasicBlock) bool {
 		for _, f := range an.BranchFacts(b) {
@@ -111,47 +132,51 @@ func checkC17(c *Ctx) {
 			for root.Parent() != nil {
 				root = root.Parent()
 			}
-			if root != m.run {
+			if !inRunOrListen(root) {
 				if _, isAlloc := an.Strip(fs.Base).(*ssa.Alloc); isAlloc {
 					continue // constructor
 				}
 				R.Fail("C17-who", fname(fs.Fn)+": store Server."+fld, c.pos(fs.Store), "Ready depends on Server."+fld+", which is written outside Run")
 				continue
 			}
-			okG := listenOK(fs.Store.Block()) && an.InstrDominates(listen, fs.Store)
+			okG := listenOK(fs.Store.Block()) && afterListen(fs.Store)
 			R.Check(okG, "C17-guard", "(*Server).Run: Server."+fld+" (read by Ready) set only after a successful Listen", c.pos(fs.Store), "store is control-dependent on the listen error being nil", "Ready() depends on Server."+fld+", which is assigned even when the listen failed (a typed nil stored in an interface is non-nil): Ready can report true although Run returned a listen error")
 		}
 	}
 	nTrue := 0
-	for _, fs := range fieldStores(shipped, G, "Server", "listenerReady") {
-		val, isConst := an.BoolConst(fs.Store.Val)
+	for _, fs := range fieldWrites(shipped, G, "Server", "listenerReady") {
+		val, isConst := an.BoolConst(fs.Val)
 		root := fs.Fn
 		for root.Parent() != nil {
 			root = root.Parent()
 		}
-		key := fname(fs.Fn) + ": listenerReady = " + an.Path(fs.Store.Val)
+		key := fname(fs.Fn) + ": listenerReady = " + an.Path(fs.Val)
 		// who
 		switch {
 		case !isConst:
-			R.Unknown("C17-who", key, c.pos(fs.Store), "listenerReady is assigned a non-constant")
+			R.Unknown("C17-who", key, c.pos(fs.At), "listenerReady is assigned a non-constant")
 			continue
-		case val && root != m.run:
-			R.Fail("C17-who", key, c.pos(fs.Store), "Ready is set to true outside Run")
+		case val && !inRunOrListen(root):
+			R.Fail("C17-who", key, c.pos(fs.At), "Ready is set to true outside Run")
 			continue
-		case !val && root != m.stop && root != m.run:
-			R.Fail("C17-who", key, c.pos(fs.Store), "Ready is reset outside Run/Stop")
+		case !val && root != m.stop && !inRunOrListen(root):
+			R.Fail("C17-who", key, c.pos(fs.At), "Ready is reset outside Run/Stop")
 			continue
 		}
-		ls := an.LockSets(fs.Fn, nil)
-		held := ls[fs.Store]
-		base := an.Path(an.Strip(fs.Base))
-		R.Check(held.Holds(base+".mu", false), "C17-who", key+" under Server.mu", c.pos(fs.Store), "must-held "+held.String(), "listenerReady is written without holding Server.mu (held "+held.String()+")")
+		if fs.Atomic {
+			R.OK("C17-who", key+" atomically", c.pos(fs.At), "sync/atomic store: needs no lock")
+		} else {
+			ls := an.LockSets(fs.Fn, nil)
+			held := ls[fs.At]
+			base := an.Path(an.Strip(fs.Base))
+			R.Check(held.Holds(base+".mu", false), "C17-who", key+" under Server.mu", c.pos(fs.At), "must-held "+held.String(), "listenerReady is written without holding Server.mu (held "+held.String()+")")
+		}
 		if val {
 			nTrue++
-			if listenOK(fs.Store.Block()) && an.InstrDominates(listen, fs.Store) {
-				R.OK("C17-guard", "(*Server).Run: listenerReady = true only after a successful Listen", c.pos(fs.Store), "store is control-dependent on net.Listen's err == nil")
+			if listenOK(fs.At.Block()) && afterListen(fs.At) {
+				R.OK("C17-guard", "(*Server).Run: listenerReady = true only after a successful Listen", c.pos(fs.At), "store is control-dependent on net.Listen's err == nil")
 			} else {
-				R.Fail("C17-guard", "(*Server).Run: listenerReady = true only after a successful Listen", c.pos(fs.Store), "Ready becomes true even when net.Listen failed (port in use): the store is not control-dependent on err == nil")
+				R.Fail("C17-guard", "(*Server).Run: listenerReady = true only after a successful Listen", c.pos(fs.At), "Ready becomes true even when net.Listen failed (port in use): the store is not control-dependent on err == nil")
 			}
 		}
 	}
@@ -159,17 +184,13 @@ func checkC17(c *Ctx) {
 		R.Fail("C17-guard", "(*Server).Run: listenerReady = true only after a successful Listen", c.pos(listen), "Run never sets listenerReady")
 	}
 	// C17-errors: error returns that do not pass a successful Listen never follow a store of true
-	isTrueStore := func(in ssa.Instruction) bool {
-		st, ok := in.(*ssa.Store)
-		if !ok {
-			return false
+	trueWrites := map[ssa.Instruction]bool{}
+	for _, fw := range fieldWrites([]*ssa.Function{m.run}, G, "Server", "listenerReady") {
+		if v, isC := an.BoolConst(fw.Val); isC && v {
+			trueWrites[fw.At] = true
 		}
-		if _, ok := fieldAddr(st.Addr, G, "Server", "listenerReady"); !ok {
-			return false
-		}
-		v, isC := an.BoolConst(st.Val)
-		return isC && v
 	}
+	isTrueStore := func(in ssa.Instruction) bool { return trueWrites[in] }
 	cnt := an.CountEvents(m.run, an.Entry(m.run), isTrueStore, nil)
 	for _, ret := range an.Returns(m.run) {
 		res := an.ReturnResults(ret)
@@ -207,6 +228,12 @@ func checkC17(c *Ctx) {
 				okLock = false
 			}
 		})
+		// a sync/atomic typed field read with Load() needs no lock
+		for _, ci := range an.Calls(ready) {
+			if _, ok := atomicLoadOf(ci.Common(), G, "Server"); ok {
+				nLoads++
+			}
+		}
 		R.Check(nLoads > 0 && okLock, "C17-getter", "(*Server).Ready reads its state under Server.mu", c.pos(ret), "fields read under the (read) lock", "Ready reads server state without holding Server.mu")
 	}
 	if readyFields["listenerReady"] {
@@ -380,9 +407,25 @@ func checkC18(c *Ctx) {
 	}
 	// stores to Server.listener elsewhere
 	for _, fs := range fieldStores(c.shippedFuncs(G), G, "Server", "listener") {
-		if fs.Fn != run {
-			R.Fail("C18-wrap", fname(fs.Fn)+": store Server.listener", c.pos(fs.Store), "the listener is replaced outside Run")
+		if fs.Fn == run {
+			continue
 		}
+		// a helper that runs only as a synchronous part of Run and only before the TLS wrap (e.g. the listen itself)
+		okHelper := false
+		if ok, _ := syncOnlyFrom(fs.Fn, run, c.shippedFuncs(G), 0); ok {
+			okHelper = true
+			for _, ci := range an.Calls(run) {
+				if an.StaticCallee(ci.Common()) != fs.Fn {
+					continue
+				}
+				for _, ws := range fieldStores([]*ssa.Function{run}, G, "Server", "listener") {
+					if an.Search(an.After(ws.Store), isInstr(ci), nil) != nil {
+						okHelper = false
+					}
+				}
+			}
+		}
+		R.Check(okHelper, "C18-wrap", fname(fs.Fn)+": store Server.listener", c.pos(fs.Store), "part of Run, executed before Run installs the TLS listener", "the listener is replaced outside Run")
 	}
 	// Accept on s.listener
 	_, okAcc := fieldLoad(m.accept.Common().Value, G, "Server", "listener")
@@ -1444,9 +1487,35 @@ func checkC11(c *Ctx) {
 			return c.isShutdownDone(sel.States[k].Chan)
 		})
 	}
+	// `if !s.reserveConn() { return nil }`: a helper that reports false only when the server is shutting down
+	var viaHelper []*ssa.BasicBlock
+	for _, f := range shipped {
+		for _, ci := range an.Calls(f) {
+			if !isWG(ci.Common(), "Add", G, "Server", "connWg") || ci.Parent() == m.run {
+				continue
+			}
+			if hc, _, not, _ := c.reserveHelper(ci, m); hc != nil {
+				onlyShutdown := true
+				for _, ret := range an.Returns(ci.Parent()) {
+					if v, isC := an.BoolConst(an.ReturnResults(ret)[0]); isC && !v && !isShutdownAtom(ret.Block()) {
+						onlyShutdown = false
+					}
+				}
+				if onlyShutdown {
+					viaHelper = append(viaHelper, not)
+				}
+			}
+		}
+	}
 	nNil := 0
 	for _, ret := range an.Returns(m.run) {
-		if !isShutdownAtom(ret.Block()) {
+		via := false
+		for _, b := range viaHelper {
+			if b.Dominates(ret.Block()) {
+				via = true
+			}
+		}
+		if !isShutdownAtom(ret.Block()) && !via {
 			continue
 		}
 		nNil++
@@ -1618,26 +1687,89 @@ func (c *Ctx) startedBeforeFirstRead(start ssa.Instruction, m *serverModel) bool
 	return false
 }
 
-// listenCall finds the call in Run that binds the listening socket: any
-// Listen* function / method of package net or crypto/tls returning (listener, error).
+// listenCall finds the call that binds the listening socket: any net / tls
+// Listen* function returning (listener, error), in Run itself or in a helper
+// that runs only as a synchronous part of Run.
 func (c *Ctx) listenCall(run *ssa.Function) *ssa.Call {
 	var out *ssa.Call
-	for _, ci := range an.Calls(run) {
-		call, ok := ci.(*ssa.Call)
-		if !ok {
-			continue
-		}
-		f := call.Common().StaticCallee()
-		if f == nil {
-			continue
-		}
-		pp := an.FuncPkgPath(f)
-		if (pp == "net" || pp == "crypto/tls") && strings.HasPrefix(f.Name(), "Listen") && f.Signature.Results().Len() == 2 && isErrorType(f.Signature.Results().At(1).Type()) {
-			if out != nil {
-				c.R.Fatal("Run has several listen calls")
+	shipped := c.shippedFuncs(G)
+	for _, fn := range shipped {
+		if fn != run {
+			if ok, _ := syncOnlyFrom(fn, run, shipped, 0); !ok {
+				continue
 			}
-			out = call
+		}
+		for _, ci := range an.Calls(fn) {
+			call, ok := ci.(*ssa.Call)
+			if !ok {
+				continue
+			}
+			f := call.Common().StaticCallee()
+			if f == nil {
+				continue
+			}
+			pp := an.FuncPkgPath(f)
+			if (pp == "net" || pp == "crypto/tls") && strings.HasPrefix(f.Name(), "Listen") && f.Signature.Results().Len() == 2 && isErrorType(f.Signature.Results().At(1).Type()) {
+				if out != nil {
+					c.R.Fatal("Run has several listen calls")
+				}
+				out = call
+			}
 		}
 	}
 	return out
+}
+
+// listenErrIn returns a predicate recognising, inside fn, "the error of the
+// listen": in the function that calls Listen it is the call's second result;
+// in Run, when the listen lives in a helper, it is the helper's error result,
+// provided the helper returns nil exactly when the listen succeeded.
+func (c *Ctx) listenErrIn(fn *ssa.Function, listen *ssa.Call) (func(ssa.Value) bool, *ssa.Call, string) {
+	direct := func(x ssa.Value) bool {
+		ex, ok := an.Strip(x).(*ssa.Extract)
+		return ok && ex.Tuple == ssa.Value(listen) && ex.Index == 1
+	}
+	if listen.Parent() == fn {
+		return direct, listen, ""
+	}
+	// find the (chain of) helper call(s) in fn leading to listen.Parent()
+	h := listen.Parent()
+	var hcall *ssa.Call
+	for _, ci := range an.Calls(fn) {
+		if call, ok := ci.(*ssa.Call); ok && an.StaticCallee(call.Common()) == h {
+			hcall = call
+		}
+	}
+	if hcall == nil {
+		return nil, nil, "the listen is more than one call away from " + fname(fn)
+	}
+	if h.Signature.Results().Len() != 1 || !isErrorType(h.Signature.Results().At(0).Type()) {
+		return nil, nil, fname(h) + " does not return just an error"
+	}
+	// nil result <=> listen ok
+	for _, ret := range an.Returns(h) {
+		res := an.ReturnResults(ret)
+		isNil := an.IsNilConst(an.Strip(res[0]))
+		okFact, failFact := false, false
+		for _, f := range an.BranchFacts(ret.Block()) {
+			cond, neg := an.Not(f.Cond)
+			x, trueMeansNil, ok := an.NilCheck(cond)
+			if !ok || !direct(x) {
+				continue
+			}
+			if (f.True != neg) == trueMeansNil {
+				okFact = true
+			} else {
+				failFact = true
+			}
+		}
+		switch {
+		case isNil && okFact, !isNil && failFact && (direct(res[0]) || true):
+		case !isNil && direct(res[0]):
+			// `return err` unconditionally: nil exactly when the listen succeeded
+		default:
+			return nil, nil, fname(h) + " can return " + map[bool]string{true: "nil", false: "an error"}[isNil] + " independently of the listen result at " + c.pos(ret)
+		}
+	}
+	return func(x ssa.Value) bool { return an.Strip(x) == ssa.Value(hcall) }, hcall, ""
 }
